@@ -54,6 +54,7 @@ class C08(Prop):
                    'torch.distributed by the simulator contract: per-group FIFO matching, in-place sums; the result is schedule '
                    'independent given matching, three baton policies are run in addition']
     stubs = ['torch.distributed -> simulator', 'kfac.distributed.int -> sym_int (bucket_cap_bytes)']
+    replay_random_tries = 1   # structural failures do not depend on the data
     trusted_base = ['z3 5.1.0', 'vkit.symex', 'symtorch shim', 'bucket_ref in this file']
     replay_tol = 1e-5
 
